@@ -31,7 +31,8 @@ from .clients import Client, WSParser
 # HTTP/1 reference
 
 
-def h1_expect(segments: List[bytes], eof: bool, max_incomplete: int = 16 * 1024) -> dict:
+def h1_expect(segments: List[bytes], eof: bool, max_incomplete: int = 16 * 1024,
+              server_names: Optional[List[str]] = None) -> dict:
     """Judgement of an HTTP/1 client byte stream.
 
     Returns {"methods": [...], "verdict": v} with v one of
@@ -39,6 +40,8 @@ def h1_expect(segments: List[bytes], eof: bool, max_incomplete: int = 16 * 1024)
       ("malformed", n, hint)   request number n (0 based) is malformed; n complete requests precede it
       ("unjudged", why)        the stream leaves plain HTTP/1 (upgrade, CONNECT, PRI, connection: close, 1.0):
                                what follows is not HTTP/1 request syntax any more, nothing is demanded
+    server_names (the configuration option): a request whose Host value is not one of them is answered 404 and the
+    connection is not reused (documented: "requests to different hosts will be responded to with 404s"): unjudged from there.
     The model answers each request the moment it is complete (that is what the scripted application does), so a
     malformed request is always met before its response has started: a status line can still be sent.
     """
@@ -60,6 +63,10 @@ def h1_expect(segments: List[bytes], eof: bool, max_incomplete: int = 16 * 1024)
                 names = {bytes(n).lower() for n, _ in ev.headers}
                 if b"upgrade" in names or ev.method in (b"CONNECT", b"PRI") or b"expect" in names:
                     return {"methods": methods, "verdict": ("unjudged", "leaves plain HTTP/1")}
+                if server_names:
+                    hosts = [bytes(v).decode("utf-8", "replace") for n, v in ev.headers if bytes(n).lower() == b"host"]
+                    if not hosts or hosts[0] not in server_names:
+                        return {"methods": methods, "verdict": ("unjudged", "unknown server name")}
             elif isinstance(ev, h11.EndOfMessage):
                 conn.send(h11.Response(status_code=200, headers=[("content-length", "3")]))
                 conn.send(h11.Data(data=b"abc"))
